@@ -122,6 +122,12 @@ func Gen(r *sx.Rng, idx int, focus string) sx.Tree {
 	for i := 0; i < nroots; i++ {
 		cfgs = append(cfgs, g.tree(0, focus))
 	}
+	if len(cfgs) >= 2 && r.Chance(40) {
+		// two roots of the same capacity: one source event can find both of them full
+		a, b := cfgs[0], cfgs[1]
+		kids := append([]sx.Tree{b.At(0), b.At(1), a.At(2), a.At(3)}, b.Kids[4:]...)
+		cfgs[1] = sx.T(kids...)
+	}
 	lockPct := 50
 	switch focus {
 	case "C17":
@@ -185,6 +191,12 @@ func Gen(r *sx.Rng, idx int, focus string) sx.Tree {
 	steps := int(r.Range(5, 45))
 	if big {
 		steps = int(r.Range(20, 110))
+	}
+	if len(cfgs) >= 2 && r.Chance(35) {
+		// opening burst: the source emits until the main loop is blocked (further emits are skipped by the model)
+		for i := 0; i < 9; i++ {
+			ints = append(ints, sx.Ints(1))
+		}
 	}
 	for i := 0; i < steps; i++ {
 		switch x := r.Intn(100); {
